@@ -17,7 +17,8 @@ EXPLANATION = (
     "the deciding static analysis, the failing set and rustc's first error are the violation. D2: a syn-based scan of the "
     "unexpanded sources of the three libraries requires every cfg/cfg_attr/cfg! to sit at item level (never on a statement, "
     "expression, field, variant, match arm or parameter) and no item name to be defined twice in one module under different "
-    "cfgs, so a codec that exists in two configurations is the same token stream in both."
+    "cfgs, so a codec that exists in two configurations is the same token stream in both. D3: the cfg-gated flavour copies "
+    "(sync / tokio / async-std) of every reader and writer are equal modulo await and the I/O trait (rule shared with C06)."
 )
 
 SRCSCAN = os.path.join(VERIF, "tools", "srcscan", "target", "release", "srcscan")
@@ -163,5 +164,9 @@ def run(ctx):
     ctx.analysed.update({"feature_sets": len(results), "files_scanned": n_files - 1, "cfg_attributes": n_cfg})
     ctx.assume("`cargo check` (type checking) stands for `builds`; linking is not exercised")
     ctx.assume("'behaves identically in both configurations' is decided through D2: no sub-item cfg and no duplicate cfg'd definitions, so the codec bodies are the same tokens in every configuration")
+    # D3: code that exists once per configuration as separate cfg-gated copies (sync / tokio / async-std) must be the same codec:
+    # the sibling-equality rule of C06 is the structural form of "same codecs in every configuration" for those copies
+    from . import c06
+    c06.run(ctx)
     return "other", EXPLANATION, {"exhaustive": tier == "thorough"}
 
